@@ -148,20 +148,22 @@ def numTok (s : NumScan) : Tok :=
   else if s.float then ⟨.Real, s.number.reverse⟩
   else ⟨.Int, s.number.reverse⟩
 
-/-- State of the string scanner (`string`, `curExpr` reversed; `exprs` reversed). -/
+/-- State of the string scanner (`string`, `curExpr` reversed; `exprs` reversed).
+    `cur_offset` is kept as the (reversed) text of the literal before the expression; the caret
+    `state.pos.offset_pos(1).advance_over(&string)` is computed from it by `exprOffset`. -/
 structure StrScan where
   string : List Char
   backSlash : Bool
   build : Int
-  exprs : List (CaretPos × List Char)
-  curOffset : CaretPos
+  exprs : List (List Char × List Char)
+  curPrefix : List Char
   curExpr : List Char
   consumed : Nat
   terminated : Bool
   panicked : Bool
 
-/-- the `for c in it` loop of the `'"'` arm; `pos` is the caret of the opening quote -/
-def scanStr (pos : CaretPos) : List Char → StrScan → StrScan
+/-- the `for c in it` loop of the `'"'` arm -/
+def scanStr : List Char → StrScan → StrScan
   | [], s => s
   | c :: cs, s =>
     if !s.backSlash && s.build == 0 && c = '"' then
@@ -173,24 +175,24 @@ def scanStr (pos : CaretPos) : List Char → StrScan → StrScan
         if s.backSlash then s1
         else
           let curExpr := if s.build > 0 then c :: s.curExpr else s.curExpr
-          let (curOffset, build) :=
-            if c = '{' then
-              ((if s.build == 0 then (pos.offsetPos 1).advanceOver string.reverse else s.curOffset),
-               s.build + 1)
-            else if c = '}' then (s.curOffset, s.build - 1)
-            else (s.curOffset, s.build)
+          let curPrefix := if c = '{' && s.build == 0 then string else s.curPrefix
+          let build := if c = '{' then s.build + 1 else if c = '}' then s.build - 1 else s.build
           if build == 0 && !curExpr.isEmpty then
             -- `cur_expr[0..cur_expr.len() - 1]`: byte slicing, panics unless the last char is 1 byte
             match curExpr with
             | last :: initRev =>
-              let exprs := if initRev.isEmpty then s.exprs else (curOffset, initRev.reverse) :: s.exprs
-              { s1 with curExpr := [], curOffset := curOffset, build := build, exprs := exprs,
+              let exprs := if initRev.isEmpty then s.exprs else (curPrefix, initRev.reverse) :: s.exprs
+              { s1 with curExpr := [], curPrefix := curPrefix, build := build, exprs := exprs,
                         panicked := s.panicked || last.utf8Size != 1 }
             | [] => s1
-          else { s1 with curExpr := curExpr, curOffset := curOffset, build := build }
-      scanStr pos cs { s2 with backSlash := c = '\\' }
+          else { s1 with curExpr := curExpr, curPrefix := curPrefix, build := build }
+      scanStr cs { s2 with backSlash := c = '\\' }
 
-def StrScan.init : StrScan := ⟨[], false, 0, [], CaretPos.start, [], 0, false, false⟩
+def StrScan.init : StrScan := ⟨[], false, 0, [], [], [], 0, false, false⟩
+
+/-- `cur_offset = state.pos.offset_pos(1).advance_over(&string)` -/
+def exprOffset (pos : CaretPos) (prefixRev : List Char) : CaretPos :=
+  (pos.offsetPos 1).advanceOver prefixRev.reverse
 
 /-- tokens of one interpolated expression, re-based at `offset` (`Lex::new(lex.pos.offset(offset).start, ..)`;
     tokens nested deeper keep their own coordinates, as in Rust) -/
@@ -198,18 +200,18 @@ def rebase (offset : CaretPos) (l : Lex) : Lex :=
   Lex.new (l.start.offset offset) l.tok l.nested
 
 /-- all nested expressions, first error wins (`collect::<Result<_,_>>`) -/
-def nestedAll (nested : List Char → LexRes (List Lex)) :
-    List (CaretPos × List Char) → LexRes (List (List Lex))
+def nestedAll (nested : List Char → LexRes (List Lex)) (pos : CaretPos) :
+    List (List Char × List Char) → LexRes (List (List Lex))
   | [] => .ok []
-  | (off, e) :: rest =>
+  | (pre, e) :: rest =>
     match nested e with
     | .err p => .err p
     | .panic n => .panic n
     | .ok toks =>
-      match nestedAll nested rest with
+      match nestedAll nested pos rest with
       | .err p => .err p
       | .panic n => .panic n
-      | .ok more => .ok (toks.map (rebase off) :: more)
+      | .ok more => .ok (toks.map (rebase (exprOffset pos pre)) :: more)
 
 /-- What one call of `into_tokens` decides before it touches the indentation state. -/
 inductive Cls where
@@ -301,13 +303,13 @@ def classify (nested : List Char → LexRes (List Lex)) (pos : CaretPos) (c : Ch
     let more := rest.takeWhile isIdChar
     .tok (asOpOrId (c :: more)) [] more.length
   else if c = '"' then
-    let s := scanStr pos rest StrScan.init
+    let s := scanStr rest StrScan.init
     if s.panicked then .panic 1
     else if !s.terminated then .err
     else
       -- The Rust arm `string.starts_with("\"\"") && string.ends_with("\"\"")` is dead: the first
       -- scanned character is never a quote (it would have terminated the scan); not modelled.
-      match nestedAll nested s.exprs.reverse with
+      match nestedAll nested pos s.exprs.reverse with
       | .err p => .nestedErr p
       | .panic n => .panic n
       | .ok nest => .tok ⟨.Str, '"' :: s.string.reverse ++ ['"']⟩ nest s.consumed
